@@ -1041,3 +1041,22 @@ Proof. vm_compute. split; reflexivity. Qed.
 Theorem proto_all_histories_cfg : forall cfg, cfg_ok cfg ->
   forall ops sched, monitor (proto_trace_cfg cfg ops sched) = true.
 Proof. intros cfg Hc ops sc. exact (proj1 (proto_inv_cfg cfg ops sc Hc)). Qed.
+
+(* ---------- C10: what garbage collection (and every other deletion) leaves in place, on every history ---------- *)
+(* At every point a history of the protocol reaches -- whatever was committed, rolled back, merged, collected or
+   restarted, and however worker / merge threads were scheduled --
+   (a) every file of the published commit (meta_segs), of every committed and of every registered uncommitted segment
+       is in the directory (once the pending directory operations are applied) with complete data;
+   (b) every file a running job (a segment under construction, a merge) has already created is in the directory, and
+       every file it has terminated is complete: no collection ever removed a file of a segment being written or merged. *)
+Theorem proto_needed_files_kept ops sc :
+  let st := run_ops_st cfg_code st0 ops sc in
+  let c := run (proto_trace ops sc) in
+  (forall f, In f (segs_files (meta_segs st) ++ segs_files (committed st) ++ segs_files (uncommitted st)) -> okf c f) /\
+  (forall j, In j (jobs st) -> forall f, In f (jfiles j) ->
+     (~ In (ECreate f) (jtodo j) -> present c f) /\ (~ In (ETerminate f) (jtodo j) -> In f (term c))).
+Proof.
+  cbn zeta. destruct (proto_inv_cfg cfg_code ops sc cfg_code_ok) as [_ (HC & _ & HJ)]. split.
+  - intros f Hf. eapply InvC_okf; [exact HC|]. unfold live. exact Hf.
+  - intros j Hj f Hf. unfold JobInv in HJ. rewrite Forall_forall in HJ. exact (HJ j Hj f Hf).
+Qed.
